@@ -2,8 +2,8 @@ package main
 
 import (
 	"fmt"
-	"os"
 	"math/big"
+	"os"
 	"strings"
 
 	"golang.org/x/tools/go/ssa"
@@ -34,11 +34,13 @@ func residueMod(d *absint.Poly, m *big.Int) string {
 // ruleExactModm (X, scalar side): polynomial identities for the scalar arithmetic, with the borrow bits of the
 // conditional-subtraction chains as 0/1 variables (B·B = B) and wrapping intermediates of the recognised borrow idiom
 // carried modulo 2^W:
-//   reduce(r):            Σ out ≡ Σ r                    (mod L)   [select between r and r − L + B·2^256 by the final borrow]
-//   Add(r, x, y):         Σ out ≡ X + Y                  (mod L)
-//   Mul(r, x, y):         r1 ≡ X·Y (mod 2^264)  and  (r1 mod 2^248) + 2^248·q1 = X·Y   at the call of barrettReduce
-//   barrettReduce(r,q1,r1): r2 ≡ q3·L (mod 2^264) for the two scratch arrays, r ≡ r1 − r2 (mod 2^264) when reduce is
-//                         first called, and reduce is called exactly twice.
+//
+//	reduce(r):            Σ out ≡ Σ r                    (mod L)   [select between r and r − L + B·2^256 by the final borrow]
+//	Add(r, x, y):         Σ out ≡ X + Y                  (mod L)
+//	Mul(r, x, y):         r1 ≡ X·Y (mod 2^264)  and  (r1 mod 2^248) + 2^248·q1 = X·Y   at the call of barrettReduce
+//	barrettReduce(r,q1,r1): r2 ≡ q3·L (mod 2^264) for the two scratch arrays, r ≡ r1 − r2 (mod 2^264) when reduce is
+//	                      first called, and reduce is called exactly twice.
+//
 // Not decided: that q3 is within 2 of the true quotient (the estimate), hence that two conditional subtractions suffice.
 func ruleExactModm(r *rep.Report, p *load.Program) {
 	cfg := p.Cfg.Name
